@@ -219,6 +219,17 @@ func main() {
 			}
 		}
 		fmt.Println("ok", n)
+	case "p2":
+		rules.P2(rc, nil, 0)
+		n := 0
+		for _, o := range s.Obs {
+			if o.Verdict != core.OK {
+				fmt.Println(o.V, o.Rule, o.Key, "::", o.Detail)
+			} else {
+				n++
+			}
+		}
+		fmt.Println("ok", n, time.Since(t0))
 	case "k1w":
 		rules.K1w(rc, nil, 0)
 		for _, o := range s.Obs {
